@@ -293,7 +293,7 @@ def worker(payload):
                             bg2 = BIOGEME(d, {'log_like': log(MonteCarlo(PanelLikelihoodTrajectory(formula(True))))}, parameters=p2)
                             bg2.modelName = 'c09boot'
                             cwd_ = os.getcwd()
-                            os.chdir(tempfile.mkdtemp(prefix='c09boot_'))
+                            os.chdir(_scratch_dir('c09boot_'))
                             try:
                                 np.random.seed(7)
                                 bg2.estimate(run_bootstrap=True)
@@ -414,6 +414,15 @@ def bad_orders(ds, rng):
             out.append([c, a, a, b, c])
     return out
 
+
+
+def _scratch_dir(prefix):
+    """a scratch directory removed when the process ends"""
+    import atexit
+    import shutil
+    d = tempfile.mkdtemp(prefix=prefix)
+    atexit.register(shutil.rmtree, d, ignore_errors=True)
+    return d
 
 def main():
     if len(sys.argv) >= 3 and sys.argv[1] == '--worker':
